@@ -84,6 +84,8 @@ def monitor(lines, impl, which):
     crashed = {}        # node -> crash time (while crashed)
     crash_epoch = {}    # node -> list of crash times
     last_time = 0.0
+    last_all = 0.0
+    handler_time = None
     timers = {}         # timer id -> (fire time, node, set time)
     dead_timers = set()
     counts = {}         # proc -> dict(s, r) since last start
@@ -147,6 +149,17 @@ def monitor(lines, impl, which):
         for kind, f in entries:
             et = hexf(f[0])
             seq += 1
+            if which == "C17":
+                # every entry carries the (global) time at which it was logged: the trace is time-ordered, and what a handler
+                # does is stamped with the time of its invocation
+                if et < last_all:
+                    return f"global trace goes back in time: a {kind} entry at {et} follows an entry at {last_all}"
+                last_all = et
+                if kind in ("MR", "TF", "LR"):
+                    handler_time = et
+                elif kind in ("LS", "TS", "TC", "MS") and handler_time is not None and et != handler_time and t is not None and op.split()[0] in ("step", "steps", "local", "for", "until", "until_local", "noevents"):
+                    if kind != "MS" or True:
+                        return (f"a {kind} entry produced by a handler invoked at time {handler_time} is stamped {et}")
             if kind in ("MR", "TF", "LR") and which == "C06":
                 if et < last_time:
                     return f"{kind} handled at time {et} after an event at time {last_time}: time went backwards"
